@@ -5,14 +5,14 @@ from .. import placement as P
 PROP = "C10"
 EXPLANATION = (
     "Static structural obligations on the placement code: (EARLIEST) candidates are scanned forward from the barrier and the first "
-    "accepted one wins (range.map.find.map.unwrap_or, no reversing adaptor); (ACCEPT) a stage without conflicting group is always "
+    "accepted one wins (an ascending scan over barrier..len(stages), however it is spelled: iterator chain, for, while); (ACCEPT) a stage without conflicting group is always "
     "accepted, one with a single conflicting group is rejected only by the capacity guard or improves_balance; (EXACT) the predicate "
     "tests nothing beyond W/W, W/R, R/W (read/read never conflicts); (DEPCOVER) the ranges of stages whose ids are crossed off the "
     "pending dependency list chain from 0 up to the scanned range; (ALLOCC) crossing off removes every equal entry; (WIDTH) "
     "max_threads is the maximum over all stages of the group count. Optimality of the balance heuristic is not decided.")
 ASSUMPTIONS = ["Iterator::find returns the first match; SmallVec::retain removes all non-matching entries"]
 TRUSTED = ["rustc nightly MIR construction", "shred-facts driver", "shredlint analyses"]
-TECHNIQUE = 'static: iterator-chain term (first accepted candidate wins), accept decision table, exactness of the conflict matrix, range chaining of dependency cross-off (DEPCOVER), removal idiom (ALLOCC), max_threads term'
+TECHNIQUE = 'static: structured evaluation of insertion_target / find_conflict / remove_ids / max_threads (interprocedural path tabulation with loop objects and std-combinator models): scan order and exits, accept table, exactness of the conflict matrix, range chaining of dependency cross-off (DEPCOVER), every-equal-entry removal (ALLOCC), running maximum (WIDTH)'
 RULE_TEXT = "one obligation per chain link, accept-table row, predicate pair, cross-off range and idiom, width computation"
 
 
